@@ -183,6 +183,7 @@ func ManageDeployment(client runtimeclient.Client, daemonset *datadoghqv1alpha1.
 	result.UnscheduledNodesDueToResourcesConstraints = manageUnscheduledPodNodes(params.UnscheduledPods)
 	// Cleanup Pods
 	err = cleanupPods(client, params.Logger, result.NewStatus, params.PodToCleanUp)
+	cleanupErr := err
 	if result.NewStatus.Desired != result.NewStatus.Ready {
 		result.Result.Requeue = true
 	}
@@ -209,6 +210,11 @@ func ManageDeployment(client runtimeclient.Client, daemonset *datadoghqv1alpha1.
 				}
 			}
 		}
+	}
+
+	if err == nil {
+		// the canary-label clean-up above reuses err: do not lose the error of the pods clean-up
+		err = cleanupErr
 	}
 
 	return result, err
